@@ -592,7 +592,8 @@ Section ModelLaw.
       intros Hne.
       pose proof (R_adapt fuel) as L. pose proof (law_yes fuel) as Y.
       unfold run_api in *.
-      destruct a as [| | |mode| | |variant]; cbn [law].
+      destruct a as [| | | |mode| | |variant]; cbn [law].
+      - destruct (adapt E fuel); try (apply L; discriminate); congruence.
       - destruct (adapt E fuel); try (apply L; discriminate); congruence.
       - destruct (adapt E fuel); try (apply L; discriminate); congruence.
       - destruct (adapt E fuel); cbn in *; try (rewrite Y; exact R_nil); try (apply L; discriminate); congruence.
@@ -1266,7 +1267,7 @@ Section Fuel.
   Corollary run_api_terminates fuel a : T n < fuel -> run_api E fuel a <> OOutOfFuel.
   Proof.
     intros H. pose proof (adapt_terminates fuel H) as Ha. unfold run_api.
-    destruct a as [| | |[|[|m]]| | |[|[|v]]]; cbn [validate_adapt];
+    destruct a as [| | | |[|[|m]]| | |[|[|v]]]; cbn [validate_adapt];
       destruct (adapt E fuel); try congruence; try discriminate;
       destruct (e_sub E (e_src E) (e_target E)); discriminate.
   Qed.
@@ -1599,7 +1600,7 @@ Proof.
   induction ops as [|o r IH]; intros st i Ha c Hc; [destruct Hc|]. cbn [hrun] in *.
   pose proof (hstep_next fuel st o) as Hn. destruct (hstep fuel st o) as [st' ob] eqn:St. cbn [fst] in Hn. subst st'.
   cbn [hlaw] in Hc. apply in_app_or in Hc. destruct Hc as [Hc|Hc].
-  - destruct o as [q| |]; cbn in St; inversion St; subst ob; try destruct Hc.
+  - destruct o as [q| | | |]; cbn in St; inversion St; subst ob; try destruct Hc.
     apply in_map_iff in Hc. destruct Hc as (c0 & <- & Hc0). exists i. f_equal.
     apply (exec_law_except_specificity (config_of st q) fuel (snd q)); [|exact Hc0].
     intros Ho. apply (Ha (HQuery q)). left. rewrite Ho. reflexivity.
@@ -1613,7 +1614,7 @@ Proof.
   pose proof (hstep_next fuel st o) as Hn. destruct (hstep fuel st o) as [st' ob] eqn:St. cbn [fst] in Hn. subst st'.
   cbn [hlaw]. destruct Hc as [Hq Hr].
   rewrite (IH (hnext st o) (i + 1)%Z); [|intros o' Ho'; apply (Ha o'); right; exact Ho'|exact Hr].
-  rewrite app_nil_r. destruct o as [q| |]; cbn in St; inversion St; subst ob; try reflexivity.
+  rewrite app_nil_r. destruct o as [q| | | |]; cbn in St; inversion St; subst ob; try reflexivity.
   rewrite (exec_law_when_comparable (config_of st q) Hq fuel (snd q)); [reflexivity|].
   intros Ho. apply (Ha (HQuery q)). left. rewrite Ho. reflexivity.
 Qed.
@@ -1632,10 +1633,11 @@ Proof.
   intros Hf. induction ops as [|o r IH]; intros st Hb o' Hin; [destruct Hin|]. cbn [hrun] in Hin.
   pose proof (hstep_next fuel st o) as Hn. destruct (hstep fuel st o) as [st' ob] eqn:St. cbn [fst] in Hn. subst st'.
   destruct Hb as [Hk Hr]. destruct Hin as [Hin|Hin].
-  - inversion Hin; subst. destruct o' as [q|s0 m0|x]; cbn in St; [|discriminate St|discriminate St]. inversion St as [Hq].
+  - inversion Hin; subst. destruct o' as [q|s0 m0|x| |]; cbn in St; [|discriminate St..]. inversion St as [Hq].
     apply (run_api_terminates (env_of (config_of st q)) (env_of_order_perm _) fuel (snd q)); [|exact Hq].
-    assert (length (e_offers (env_of (config_of st q))) = length (h_offers st)) as ->.
-    { destruct q as [[[a b] f] ap]. cbn. apply number_offers_length. }
-    pose proof (T_mono _ _ Hk). lia.
+    assert (length (e_offers (env_of (config_of st q))) <= length (h_offers st)) as Hle.
+    { destruct q as [[[a b] f] ap]. cbn. rewrite number_offers_length.
+      destruct (uses_global ap && negb (h_global st)); cbn; lia. }
+    pose proof (T_mono _ _ Hle). pose proof (T_mono _ _ Hk). lia.
   - apply (IH (hnext st o) Hr o' Hin).
 Qed.
